@@ -213,6 +213,20 @@ def _catalogue():
                 "b": T(), "c": T()}, output=["pa"])
     # D10c retry command in a transition
     add("D10c", {"a": T([("fail", [], ["retry"]), ("ok", [], ["b"])]), "b": T()})
+    # D10e retry with count and delay taken from the context (input n, d)
+    add("D10e", {"a": T([("ok", [], ["b"])], retry={"count": "<% ctx().n %>", "delay": "<% ctx().d %>"}), "b": T()},
+        inputs={"n": 1, "d": 4}, input_decl=["n", "d"])
+    # D10s retry on a multi-referenced task (runs once per route, each with its own attempts)
+    add("D10s", {"s": T([("any", [], ["a", "b"])]), "a": T([("ok", [], ["x"])]), "b": T([("ok", [], ["x"])]),
+                 "x": T([("fail", [], ["r"])], retry={"count": 1}), "r": T()})
+    # D10l retry inside a loop, count from a context variable that changes between visits
+    add("D10l", {"init": T([("ok", [], ["a"])]),
+                 "a": T([("ok", [("i", "inc"), ("n", ("const", 0))], ["b"])], retry={"count": "<% ctx().n %>", "delay": 2}),
+                 "b": T([(("lt", "i", 2), [], ["a"]), (("ge", "i", 2), [], ["c"])]), "c": T()},
+        vars={"i": 0, "n": 1})
+    # D10w retry on a with-items task
+    add("D10w", {"w": T([("ok", [], ["z"])], items=2, conc=1, retry={"count": 1}), "z": T()},
+        inputs={"xs": [10, 11]}, input_decl=["xs"])
     # D11 with-items (3 items, concurrency 2) with successor and output
     add("D11", {"w": T([("ok", ["out"], ["z"])], items=3, conc=2), "z": T()},
         inputs={"xs": [10, 11, 12]}, input_decl=["xs"], output=["out"])
